@@ -95,10 +95,15 @@ ShapeCreds == {"malformed", "empty"}
 EmbedCreds == {"embedEmpty", "embedBareEmpty", "embedSlashEmpty", "embedKnown"}
 Asks(cr)   == cr \notin ShapeCreds \cup EmbedCreds      \* credentials that reach the password checker
 Nobody     == "nobody"
+\* caseKnown: an account of the attacker's own named like the victim in another letter case, with its own
+\* (right) password.  The checker approves exactly that name: the connection is "Victim@domain", never
+\* "victim@domain" (addresses are compared byte-wise by the monitor)
+CaseUser   == "Victim"
 UserOf(cr) == CASE cr \in {"otherUser", "victimEmpty", "victimOwnSecret", "victimReplay"} -> Vic      \* whose name the credentials carry
                 [] cr \in {"unknownPw", "unknownEmpty"} -> Nobody
+                [] cr = "caseKnown" -> CaseUser
                 [] OTHER -> Att
-Right(cr)  == cr = "right"                              \* ... and whether the secret is that user's password
+Right(cr)  == cr \in {"right", "caseKnown"}                              \* ... and whether the secret is that user's password
 
 AllStanzas == Kinds \X Froms \X Tos
 \* reduced alphabets for generator configurations (a .cfg cannot write tuples)
@@ -318,7 +323,7 @@ P_Identity(j, appr)   == j.u \in appr /\ j.d = Domain           \* an address th
 P_From(f, appr, res)  == f.u \in appr /\ f.d = Domain /\ f.r \in {"", res}
 
 TypeOK ==
-    /\ c.phase \in {"init", "open", "closed"} /\ c.authed \in {"", Att, Vic}
+    /\ c.phase \in {"init", "open", "closed"} /\ c.authed \in {"", Att, Vic, CaseUser}
     /\ c.st \in {"none", "plainWait", "check", "digestWait", "digestCheck", "digestFinal"}
     /\ Len(pending) <= MaxPending
 \* a resource is bound only for an authenticated connection
